@@ -76,6 +76,25 @@ def r01_3(facts, res):
                     key = "%s|%s::%s" % (f["path"], enum_name, variant)
                     used = {m["lid"] for m in walk(arm["body"]) if m.get("k") == "Path" and m.get("res") == "Local"}
                     unused = [name for lid, name in binds if lid not in used and not name.startswith("_")]
+                    # values built from the payload must go somewhere: a local initialised from the payload and never read
+                    # again is a dropped item (`let _comment = XmlComment::node(v.value, ..);`)
+                    tainted = {lid for lid, _ in binds}
+                    dead = []
+                    lets = [m for m in walk(arm["body"]) if m.get("s") == "Let" and "init" in m]
+                    changed = True
+                    while changed:
+                        changed = False
+                        for m in lets:
+                            if any(x.get("k") == "Path" and x.get("res") == "Local" and x.get("lid") in tainted for x in walk(m["init"])):
+                                for q in walk(m["pat"]):
+                                    if q.get("p") == "Bind" and q["lid"] not in tainted:
+                                        tainted.add(q["lid"])
+                                        changed = True
+                    for m in lets:
+                        for q in walk(m["pat"]):
+                            if q.get("p") == "Bind" and q["lid"] in tainted and q["lid"] not in used:
+                                dead.append(q["name"])
+                    unused = unused + ["%s (built from the payload, never used)" % d for d in dead]
                     has_payload = bool(binds) or wild
                     body_empty = arm["body"].get("k") == "Block" and not arm["body"].get("stmts") and "expr" not in arm["body"]
                     drops = (wild and has_payload and variant != "_" and _variant_has_fields(facts, sty, variant)) or unused or \
